@@ -16,17 +16,46 @@ class SymS:
     def wf(self):
         return [self.L >= 0, self.L <= self.N]
 
+def _cat(name):
+    word = lambda ch: z3.Or(z3.And(ch >= 48, ch <= 57), z3.And(ch >= 65, ch <= 90), z3.And(ch >= 97, ch <= 122), ch == 95)  # noqa
+    space = lambda ch: z3.Or(ch == 32, ch == 9, ch == 10, ch == 13, ch == 11, ch == 12)  # noqa
+    digit = lambda ch: z3.And(ch >= 48, ch <= 57)  # noqa
+    return {"word": word, "space": space, "digit": digit, "not_word": lambda ch: z3.Not(word(ch)),
+            "not_space": lambda ch: z3.Not(space(ch)), "not_digit": lambda ch: z3.Not(digit(ch))}[name]
+
+
 def cls_pred(kind):
-    if kind == "dot": return lambda ch: ch != 10
-    if kind == "ws": return lambda ch: z3.Or(ch == 32, ch == 9, ch == 10, ch == 13, ch == 11, ch == 12)
-    if kind == "word": return lambda ch: z3.Or(z3.And(ch >= 48, ch <= 57), z3.And(ch >= 65, ch <= 90), z3.And(ch >= 97, ch <= 122), ch == 95)
+    """kind: 'dot' | 'ws' | 'word' | ('set', negate, items) with items ('lit', c) | ('range', lo, hi) | ('cat', name).
+    Bytes are ASCII (the buffers are constrained to < 128), so re.ASCII and Unicode classes coincide."""
+    if kind == "dot":
+        return lambda ch: ch != 10
+    if kind == "ws":
+        return _cat("space")
+    if kind == "word":
+        return _cat("word")
+    if isinstance(kind, tuple) and kind[0] == "set":
+        _, neg, items = kind
+
+        def pred(ch):
+            alts = []
+            for it in items:
+                if it[0] == "lit":
+                    alts.append(ch == it[1])
+                elif it[0] == "range":
+                    alts.append(z3.And(ch >= it[1], ch <= it[2]))
+                else:
+                    alts.append(_cat(it[1])(ch))
+            r = z3.Or(*alts) if alts else z3.BoolVal(False)
+            return z3.Not(r) if neg else r
+        return pred
     raise ValueError(kind)
+
 
 def compile_atoms(atoms, s, end_anchor=False):
     """atoms: list of ('lit', str) | ('star', kind) | ('plus', kind) | ('open', g) | ('close', g)
     returns tables M[t][i][j], R[t][i]"""
     N = s.N
-    real = [(k, a) for k, a in enumerate(atoms) if a[0] in ("lit", "star", "plus")]
+    real = [(k, a) for k, a in enumerate(atoms) if a[0] in ("lit", "star", "plus", "one")]
     T = len(real)
     F = z3.BoolVal(False)
     inlen = [z3.IntVal(j) <= s.L for j in range(N + 1)]
@@ -52,6 +81,10 @@ def compile_atoms(atoms, s, end_anchor=False):
             for i in range(N + 1 - n):
                 j = i + n
                 tab[i][j] = z3.And(*[s.c[i + k] == ord(a[1][k]) for k in range(n)], inlen[j]) if n else z3.BoolVal(True)
+        elif a[0] == "one":
+            p = cls_pred(a[1])
+            for i in range(N):
+                tab[i][i + 1] = z3.And(p(s.c[i]), inlen[i + 1])
         else:
             rt = run_table(a[1])
             for i in range(N + 1):
